@@ -219,6 +219,7 @@ impl Monitor for C06 {
                 ctx.count(if found { "negative:78_9D_expanded" } else { "negative:78_9D_copied" });
             }
             let o = wrap::ZipOpts {
+                size_mode: 0,
                 name_len: 4,
                 extra_len: 0,
                 data_descriptor: false,
